@@ -1191,7 +1191,9 @@ def run(ctx: core.Ctx) -> None:
         'JSON envelope (version, time, host, pid, ppid, counter) is stripped before comparison',
         'reference encoder vt/ref/wire.py builds every message; the comparison is string equality between two ExaBGP runs',
     ]
+    phases = ctx.coverage_extra.setdefault('phase_wall_s', {})
     H = harness()
+    phases['world+scan+calibration'] = round(ctx.elapsed(), 1)
     ctx.coverage_extra['hot_state'] = list(H.hot)
     ctx.coverage_extra['calibration'] = H.calibration
     ctx.coverage_extra['letters'] = NLET
@@ -1211,6 +1213,7 @@ def run(ctx: core.Ctx) -> None:
             raise core.HarnessError(f'in-process reset is not equivalent to a fresh interpreter for {mode} {letter}: '
                                     f'{_short(here, 600)} vs {_short(there, 600)}')
         ctx.add_to_set('alone_outcomes', core.digest(there['obs']))
+    phases['alone_table'] = round(ctx.elapsed(), 1)
     ctx.sample({'alone': letter_name(LETTERS[0]), 'caching': 'on', 'obs': [_short(x, 160) for x in table[('on', LETTERS[0])]['obs']]})
 
     # 2. workers are forked from this calibrated, loaded harness
@@ -1224,6 +1227,7 @@ def run(ctx: core.Ctx) -> None:
                 tasks += [(mode, length, lo, min(total, lo + size)) for lo in range(0, total, size)]
         for part in pool.imap(_chunk, tasks):
             part.merge_into(ctx)
+        phases['full_enumeration'] = round(ctx.elapsed(), 1)
         ctx.coverage_extra['full_enumeration'] = {m: {'max_length': full[m], 'sequences': sum(NLET ** k for k in range(1, full[m] + 1))}
                                                   for m in CACHING}
         # 3. deeper: BFS over histories, one representative history per canonical process-wide state (hot roots; the
@@ -1253,6 +1257,7 @@ def run(ctx: core.Ctx) -> None:
             for st in seen:
                 ctx.add_to_set('process_states', st)
         ctx.counters['states'] = ctx.set_size('states_with_adj_rib_in')
+        phases['bfs'] = round(ctx.elapsed(), 1)
     finally:
         pool.close()
         pool.join()
